@@ -147,7 +147,7 @@ def qr_blocks(ctx):
                         for r in (0, 1):
                             for cc in (0, 1):
                                 ref[h - 1 + r * h, h - 1 + cc * h] = M[r, cc]
-                        if not np.allclose(W, ref, atol=1e-10):
+                        if not np.allclose(W, ref, atol=1e-7):   # Qiskit synthesises the controlled gate to about 4e-9 from 4 qubits on
                             bad = "the mcmt instruction is not a fully controlled one-qubit gate"
                         gates.append(f"MGU 1 {coq_list([str(q) for q in qs[:-1]])} {qs[-1]}")
                     else:
@@ -190,7 +190,7 @@ def qr_blocks(ctx):
             ctx.monitor("qr_two_level_product")
             if bad:
                 ctx.mismatch("C02 QR correspondence: " + bad, case0)
-            elif np.abs(total - np.asarray(U, complex)).max() > 1e-9:
+            elif np.abs(total - np.asarray(U, complex)).max() > 1e-7:
                 ctx.mismatch(f"C02 QR tie: the product of the two-level operators of the blocks differs from the matrix by {np.abs(total - U).max():.2e}", case0)
 
     def on_fail(cs):
